@@ -17,14 +17,18 @@ RULE = (
     "halton-sampler (seeded HaltonSampler on the 2^-20 grid: start index recovered from coordinate 0 and bounded, the "
     "draw log shows the requested range, equal seeds equal starts, batch sequences n1+n2+.. equal one batch of the "
     "total from a twin, grid level equals snap(reference)), rseq (differences equal phi_d^-j mod 1 with phi_d from a "
-    "60-digit solve, continuity, reseeding). Non-trivial = d >= 3 and an index with a carry in some base, or a "
+    "60-digit solve, continuity, reseeding), lifecycle (one Halton or R-sequence object on generated spaces of 1-40 parameters "
+    "incl. non-dividing / offset / tiny / huge axes through draws of 1-8 and 1025-2600 points, pickle and deepcopy round "
+    "trips, re-seeding with the same or another seed, a change of search space and dimension; the monitor keeps its own cursor "
+    "and every emitted coordinate must be the grid element nearest to lower + u (upper - lower) with u the exact sequence "
+    "value at that cursor; near-ties between two grid elements are skipped). Non-trivial = d >= 3 and an index with a carry in some base, or a "
     "split batch sequence; distinct by (kind, d, start, sizes)."
 )
 ASSUMPTIONS = [
     "the first point may be counted as k=0 or k=1: first emitted index accepted in [20, 2^16]; the draw log must show the start requested from exactly [20, 2^16)",
     "grid-level comparison skips reference points within 1e-9 of a cell mid-point",
 ]
-REQUIRED_COUNTERS = {"cursor_placed_near_boundary": 10, "halton_points": 1500, "prime_tables": 20, "sampler_objects": 40, "split_sequences": 40, "rseq_points": 400, "start_draws_logged": 40}
+REQUIRED_COUNTERS = {"lifecycle_draws": 60, "lifecycle_pickle_roundtrips": 8, "lifecycle_reseed_same_seed": 5, "lifecycle_space_changes": 5, "lifecycle_draws_above_1024": 3, "cursor_placed_near_boundary": 10, "halton_points": 1500, "prime_tables": 20, "sampler_objects": 40, "split_sequences": 40, "rseq_points": 400, "start_draws_logged": 40}
 SHARDS = {"quick": 8, "thorough": 16}
 
 
@@ -34,6 +38,7 @@ def gen_cases(tier, seed):
     cases += [{"kind": "halton-fn", "i": i, "seed": seed} for i in range(24 * k)]
     cases += [{"kind": "halton-sampler", "i": i, "seed": seed} for i in range(24 * k)]
     cases += [{"kind": "rseq", "i": i, "seed": seed} for i in range(24 * k)]
+    cases += [{"kind": "lifecycle", "i": i, "seed": seed} for i in range(24 * k)]
     return cases
 
 
@@ -97,11 +102,139 @@ def fine_space(d):
     return SearchSpace([[0.0] * d, [1.0] * d], [2.0**-20] * d, False)
 
 
+def nearest_on_grid(grid, v):
+    """(nearest grid element, ambiguous?) by brute force; ambiguous when two elements are (almost) equally near."""
+    dist = np.abs(grid - v)
+    j = int(np.argmin(dist))
+    if len(grid) > 1:
+        d2 = np.partition(dist, 1)[:2]
+        amb = abs(d2[1] - d2[0]) <= 1e-9 * max(abs(grid[-1] - grid[0]) / max(len(grid) - 1, 1), 1e-300)
+    else:
+        amb = False
+    return grid[j], amb
+
+
+def run_lifecycle(rng, out, bad):
+    """One sampler object through a life: draws of many sizes (also > 1024), pickle / deepcopy round trips, re-seeding with the
+    same or another seed, a second search space (other bounds, other dimension).  Reference: a cursor kept by the monitor; every
+    emitted row must be the snapped image of the exact sequence point at the monitor's cursor."""
+    import copy
+    import pickle
+
+    from black_it.samplers.halton import HaltonSampler
+    from black_it.samplers.r_sequence import RSequenceSampler
+
+    from vlib import gen as G
+
+    c = out["counters"]
+    for _ in range(2):
+        which = str(rng.choice(["halton", "rseq"]))
+        seed = int(rng.integers(0, 2**32 - 1))
+        bsz = int(rng.integers(1, 6))
+        with quiet():
+            smp = (HaltonSampler if which == "halton" else RSequenceSampler)(batch_size=bsz, random_state=seed)
+
+        def new_space():
+            d = int(rng.choice([1, 2, 3, 5, 8, 12, int(rng.integers(1, 41))]))
+            sd = G.gen_space(rng, dims=d, max_points=200)
+            return sd, G.build_space(sd)
+
+        def start_of(sd_, reseeded=False):
+            # the start is seed-determined, but "constructed with seed" and "re-seeded with seed" are two different (each reproducible)
+            # positions of the seed's stream: the twin is brought to its start the same way as the object under test
+            with quiet():
+                if reseeded:
+                    t = (HaltonSampler if which == "halton" else RSequenceSampler)(batch_size=1, random_state=12345)
+                    t.random_state = sd_
+                else:
+                    t = (HaltonSampler if which == "halton" else RSequenceSampler)(batch_size=1, random_state=sd_)
+            return (int(t._sequence_index), None) if which == "halton" else (int(t._sequence_index), float(t._sequence_start))
+
+        cur, off = start_of(seed)
+        if (int(smp._sequence_index) != cur) or (which == "rseq" and float(smp._sequence_start) != off):
+            bad(f"{which}: two samplers constructed with seed {seed} do not start at the same place", {"seed": seed})
+            continue
+        sd, space = new_space()
+        ops = []
+        w = {"sampler": which, "seed": seed, "batch_size": bsz, "ops": ops, "space": sd}
+        c["lifecycle_objects"] = c.get("lifecycle_objects", 0) + 1
+        for _step in range(int(rng.integers(3, 9))):
+            op = str(rng.choice(["draw", "draw", "draw", "bigdraw", "pickle", "deepcopy", "reseed_same", "reseed_other", "other_space"], p=[0.3, 0.15, 0.1, 0.05, 0.1, 0.05, 0.1, 0.05, 0.1]))
+            if op in ("draw", "bigdraw"):
+                n = int(rng.integers(1, 9)) if op == "draw" else int(rng.integers(1025, 2600))
+                ops.append(["draw", n])
+                d = space.dims
+                with quiet():
+                    got = np.asarray(smp.sample_batch(n, space, np.zeros((0, d)), np.zeros(0)))
+                out["evals"] += 1
+                c["lifecycle_draws"] = c.get("lifecycle_draws", 0) + 1
+                if n > 1024:
+                    c["lifecycle_draws_above_1024"] = c.get("lifecycle_draws_above_1024", 0) + 1
+                if got.shape != (n, d):
+                    bad(f"{which}: sample_batch({n}) returned shape {got.shape}", w)
+                    break
+                lo, up = np.asarray(space.parameters_bounds[0], dtype=float), np.asarray(space.parameters_bounds[1], dtype=float)
+                if which == "halton":
+                    bases = sieve(d)
+                else:
+                    ph = phi_d(d)
+                    alpha = [Decimal(1) / ph ** j for j in range(1, d + 1)]
+                rows = list(range(n)) if n <= 12 else sorted(set([0, 1, n - 1, 1023, 1024, 1025] + [int(x) for x in rng.integers(0, n, size=8)]) & set(range(n)))
+                okrow = True
+                for k in rows:
+                    for j in range(d):
+                        if which == "halton":
+                            u = float(radical_inverse(cur + 1 + k, bases[j]))
+                        else:
+                            u = float((Decimal(off) + alpha[j] * (cur + k)) % 1)
+                        v = lo[j] + u * (up[j] - lo[j])
+                        ref, amb = nearest_on_grid(space.param_grid[j], v)
+                        c["lifecycle_coordinates"] = c.get("lifecycle_coordinates", 0) + 1
+                        if amb or got[k, j] == ref:
+                            continue
+                        bad(f"{which}: after {ops[:-1]} the row {k} of a draw of {n} (sequence index {cur + k + (1 if which == 'halton' else 0)}) has coordinate {j} = {got[k, j]!r}; "
+                            f"the sequence point {u!r} maps to {v!r}, nearest grid element {ref!r}", w)
+                        okrow = False
+                        break
+                    if not okrow:
+                        break
+                if not okrow:
+                    break
+                cur += n
+                if len(ops) >= 2:
+                    out["nontrivial"].append(f"lc:{which}:{seed}:{len(ops)}:{n}")
+            elif op == "pickle":
+                ops.append(["pickle round trip"])
+                smp = pickle.loads(pickle.dumps(smp))
+                c["lifecycle_pickle_roundtrips"] = c.get("lifecycle_pickle_roundtrips", 0) + 1
+            elif op == "deepcopy":
+                ops.append(["deepcopy"])
+                smp = copy.deepcopy(smp)
+                c["lifecycle_pickle_roundtrips"] = c.get("lifecycle_pickle_roundtrips", 0) + 1
+            elif op == "reseed_same":
+                ops.append(["random_state = same seed"])
+                with quiet():
+                    smp.random_state = seed
+                cur, off = start_of(seed, reseeded=True)
+                c["lifecycle_reseed_same_seed"] = c.get("lifecycle_reseed_same_seed", 0) + 1
+            elif op == "reseed_other":
+                seed = int(rng.integers(0, 2**32 - 1))
+                ops.append(["random_state = other seed", seed])
+                with quiet():
+                    smp.random_state = seed
+                cur, off = start_of(seed, reseeded=True)
+            else:
+                sd, space = new_space()
+                ops.append(["other search space", {"dims": space.dims}])
+                w["space"] = sd
+                c["lifecycle_space_changes"] = c.get("lifecycle_space_changes", 0) + 1
+
+
 def run_case(desc, ctx):
     from black_it.samplers import halton as H
     from black_it.samplers.r_sequence import RSequenceSampler
 
-    rng = rng_for(desc["seed"], 13, ["primes", "halton-fn", "halton-sampler", "rseq"].index(desc["kind"]), desc["i"])
+    rng = rng_for(desc["seed"], 13, ["primes", "halton-fn", "halton-sampler", "rseq", "lifecycle"].index(desc["kind"]), desc["i"])
     out = {"violations": [], "counters": {}, "evals": 0, "nontrivial": []}
     c = out["counters"]
 
@@ -231,6 +364,10 @@ def run_case(desc, ctx):
                 a = s3.sample(space, np.zeros((0, d)), np.zeros(0))
                 if mode == 0 and forced is None and not np.array_equal(a, parts[0]):
                     bad("two samplers constructed with the same seed start at different indices", w)
+        return out
+
+    if kind == "lifecycle":
+        run_lifecycle(rng, out, bad)
         return out
 
     # ---------------------------------------------------------------- rseq
